@@ -316,7 +316,38 @@ func validRequest(rt *rapid.T) []byte {
 	fn := rapid.SampledFrom([]string{"fn0", "fn1", "Fn2", "tars_ping", "nope"}).Draw(rt, "fn")
 	r := rpcprops.RawReq{Version: ver, PacketType: int8(rapid.IntRange(0, 1).Draw(rt, "pt")), ReqID: rapid.Int32().Draw(rt, "id"), Servant: "Verif.Obj", Func: fn, Buffer: buf,
 		Timeout: rapid.SampledFrom([]int32{0, 1, 60000, -1}).Draw(rt, "to"), Context: map[string]string{"k": "v"}, Status: map[string]string{}}
+	// message-type flags and the status / context entries the framework itself interprets
+	// (dyeing, tracing, hash, set name, result code ...), with arbitrary values
+	if rapid.Bool().Draw(rt, "meta") {
+		r.MsgType = metaFlags(rt)
+		for _, k := range []string{"STATUS_DYED_KEY", "STATUS_TRACE_KEY", "STATUS_RESULT_CODE", "STATUS_RESULT_DESC", "STATUS_GRID_KEY", "STATUS_SETNAME_VALUE", "STATUS_SAMPLE_KEY"} {
+			if rapid.IntRange(0, 2).Draw(rt, "has."+k) == 0 {
+				r.Status[k] = metaValue(rt, k)
+			}
+		}
+		if rapid.IntRange(0, 3).Draw(rt, "ctxmeta") == 0 {
+			r.Context["TARS_HASH"] = metaValue(rt, "ctx")
+		}
+	}
 	return r.Encode()
+}
+
+func metaFlags(rt *rapid.T) int32 {
+	var f int32
+	for _, bit := range []int32{0x01, 0x02, 0x04, 0x08, 0x10, 0x80, 0x100} {
+		if rapid.IntRange(0, 2).Draw(rt, "flag") == 0 {
+			f |= bit
+		}
+	}
+	if rapid.IntRange(0, 7).Draw(rt, "wildflags") == 0 {
+		f = rapid.Int32().Draw(rt, "flags")
+	}
+	return f
+}
+
+func metaValue(rt *rapid.T, label string) string {
+	return rapid.SampledFrom([]string{"", "|", "||", "a", "a|b", "a|b|c", "a|b|c|d|e", "-1", "0", "4294967296", "12345678901234567890", "x|", "|y",
+		"00-0af7651916cd43dd8448eb211c80319c-b7ad6b7169203331-01", "\x00", strings.Repeat("z", 300)}).Draw(rt, "metaval."+label)
 }
 
 func mutate(rt *rapid.T, b []byte, keepPrefix bool) []byte {
@@ -347,8 +378,10 @@ func mutate(rt *rapid.T, b []byte, keepPrefix bool) []byte {
 
 func drawPkt(rt *rapid.T) Pkt {
 	p := Pkt{Via: rapid.SampledFrom([]string{"tcp", "tcp-pipelined", "udp", "udp"}).Draw(rt, "via")}
-	p.Kind = rapid.SampledFrom([]string{"mutant", "mutant", "mutant-raw", "random-framed", "bomb", "arbitrary", "short"}).Draw(rt, "kind")
+	p.Kind = rapid.SampledFrom([]string{"mutant", "mutant", "mutant-raw", "random-framed", "bomb", "arbitrary", "short", "wellformed-meta", "wellformed-meta"}).Draw(rt, "kind")
 	switch p.Kind {
+	case "wellformed-meta":
+		p.B = validRequest(rt) // not mutated: the hostile part is what the fields say
 	case "mutant":
 		p.B = mutate(rt, validRequest(rt), true)
 	case "mutant-raw":
